@@ -25,6 +25,7 @@ type Obligation struct {
 	Result  *SolveResult
 	Extra   []string // extra axioms (lemma instances) local to this obligation
 	ModelVars []string
+	Parts   []string // names of the conjuncts (frame obligations: heap arrays)
 }
 
 type loopInfo struct {
